@@ -732,4 +732,123 @@ theorem hif_rt_sc (a : ANet) (hw : AWF a) (hc : a.cls = .sc) :
       rw [mem_subfaces] at hf
       exact ⟨p, hp, fun x hx => (hm x).mp (hf.1.subset hx)⟩
 
+/-! ### non-vacuity: concrete networks satisfy the hypotheses and the functions evaluate as expected -/
+
+/-- nodes 3, 1, 2, 9 (9 isolated); edges x = {1, 2}, 0 = {3}, 5 = {} (empty), 2 = {1, 2} (multi-edge) -/
+def exNet : Net :=
+  { nodes := [.int 3, .int 1, .int 2, .int 9],
+    edges := [(.str "x", [.int 1, .int 2]), (.int 0, [.int 3]), (.int 5, []), (.int 2, [.int 1, .int 2])] }
+
+example : exNet.WF := by unfold Net.WF exNet; decide
+
+example : (fromBipartiteEdgelist (toBipartiteEdgelist exNet)).edges =
+    [(.str "x", [.int 1, .int 2]), (.int 0, [.int 3]), (.int 2, [.int 1, .int 2])] := by decide
+example : (fromHyperedgeList (toHyperedgeList exNet)).edges =
+    [(.int 0, [.int 1, .int 2]), (.int 1, [.int 3]), (.int 2, []), (.int 3, [.int 1, .int 2])] := by decide
+example : (toIncidence exNet).M = [[0, 1, 0, 0], [1, 0, 0, 1], [1, 0, 0, 1], [0, 0, 0, 0]] := by decide
+example : (fromIncidence (toIncidence exNet).M none none).toOption.map (·.edges) =
+    some [(.int 1, [.int 0]), (.int 0, [.int 1, .int 2]), (.int 3, [.int 1, .int 2])] := by decide
+example : (fromDataframe (toDataframe exNet)).nodes = [.int 3, .int 1, .int 2] := by decide
+
+/-- the F8a witness: edge-vertices inserted first, so networkx hands every pair over as (edge, node) -/
+def exGraph : BGraph :=
+  { directed := false,
+    verts := [(.str "a", some 1), (.str "b", some 1), (.int 1, some 0), (.int 2, some 0), (.int 3, some 0)],
+    edges := [(.str "a", .int 1), (.str "a", .int 2), (.str "b", .int 2), (.str "b", .int 3)] }
+/-- the same graph with node-vertices first and pairs (node, edge) -/
+def exGraph' : BGraph :=
+  { directed := false,
+    verts := [(.int 1, some 0), (.int 2, some 0), (.int 3, some 0), (.str "a", some 1), (.str "b", some 1)],
+    edges := [(.int 1, .str "a"), (.int 2, .str "a"), (.int 2, .str "b"), (.int 3, .str "b")] }
+
+example : GWF exGraph := by unfold GWF exGraph; decide
+example : exGraph.verts.Perm exGraph'.verts := by decide
+example : (fromBipartiteGraph exGraph).toOption.map (fun r => (r.nodes, r.edges)) =
+    some ([.int 1, .int 2, .int 3], [(.str "a", [.int 1, .int 2]), (.str "b", [.int 2, .int 3])]) := by decide
+example : (fromBipartiteGraph exGraph').toOption.map (fun r => (r.nodes, r.edges)) =
+    (fromBipartiteGraph exGraph).toOption.map (fun r => (r.nodes, r.edges)) := by decide
+/-- a node–node edge is refused -/
+example : (fromBipartiteGraph { exGraph with edges := [(.int 1, .int 2)] }).toBool = false := by decide
+
+/-- an attributed network: node 1 and edge x carry attributes, the network has a name -/
+def exANet : ANet :=
+  { cls := .hg, net := exNet,
+    nattr := fun n => if n = .int 1 then [("c", .sc (.str "r"))] else [],
+    eattr := fun e => if e = .str "x" then [("w", .sc (.int 2)), ("k", .sc .none)] else [],
+    gattr := [("name", .sc (.str "foo"))] }
+
+example : AWF exANet :=
+  ⟨by unfold Net.WF exANet exNet; decide, by unfold AttrsWF exANet; decide,
+   by unfold AttrsWF exANet exNet; decide, by unfold AttrsWF exANet exNet Net.edgeIds; decide⟩
+
+example : (toHif exANet).nodes = [(.int 1, some [("c", .sc (.str "r"))]), (.int 9, none)] := by decide
+example : (toHif exANet).edges = [(.str "x", some [("w", .sc (.int 2)), ("k", .sc .none)]), (.int 5, none)] := by decide
+example : (fromHifU (toHif exANet)).net.nodes = [.int 1, .int 2, .int 3, .int 9] := by decide
+example : (fromHifU (toHif exANet)).net.edges =
+    [(.str "x", [.int 1, .int 2]), (.int 0, [.int 3]), (.int 2, [.int 1, .int 2]), (.int 5, [])] := by decide
+example : (fromHifU (toHif exANet)).gattr = [("name", .sc (.str "foo"))] := by decide
+
+/-- an injective string cast on the IDs of `exNet` with its inverse (stand-ins for `str` / `int`) -/
+def exCast : PyId → String
+  | .atom (.int 0) => "0" | .atom (.int 1) => "1" | .atom (.int 2) => "2" | .atom (.int 3) => "3"
+  | .atom (.int 5) => "5" | .atom (.int 9) => "9" | .atom (.str s) => s | _ => "?"
+def exUncastInt : String → Except Err PyId
+  | "0" => .ok (.int 0) | "1" => .ok (.int 1) | "2" => .ok (.int 2) | "3" => .ok (.int 3)
+  | "5" => .ok (.int 5) | "9" => .ok (.int 9) | _ => .error .type
+def exUncastAny : String → Except Err PyId
+  | "0" => .ok (.int 0) | "2" => .ok (.int 2) | "5" => .ok (.int 5) | s => .ok (.str s)
+
+example : ∀ x ∈ exANet.net.nodes, exUncastInt (exCast x) = .ok x := by
+  unfold exANet exNet; intro x hx
+  simp only [List.mem_cons, List.not_mem_nil, or_false] at hx
+  rcases hx with rfl | rfl | rfl | rfl <;> rfl
+example : ∀ e ∈ exANet.net.edgeIds, exUncastAny (exCast e) = .ok e := by
+  unfold exANet exNet Net.edgeIds; intro x hx
+  simp only [List.map_cons, List.map_nil, List.mem_cons, List.not_mem_nil, or_false] at hx
+  rcases hx with rfl | rfl | rfl | rfl <;> rfl
+example : ∀ p ∈ exANet.net.edges, (sortIds p.2).isSome = true := by unfold exANet exNet; decide
+example : (sortIds [.int 2, .int 1]).isSome = true := by decide
+example : sortIds [.int 2, .str "a"] = none := by decide
+/-- all hypotheses of `hypergraphDict_rt` hold for `exANet` -/
+example : ∃ d r, toHypergraphDict exCast exANet = .ok d ∧ fromHypergraphDict exUncastInt exUncastAny d = .ok r ∧
+    r.net.nodes = exANet.net.nodes ∧ r.gattr = exANet.gattr := by
+  obtain ⟨d, r, h1, h2, h3, _, _, h6, _⟩ := hypergraphDict_rt exCast exUncastInt exUncastAny exANet
+    ⟨by unfold Net.WF exANet exNet; decide, by unfold AttrsWF exANet; decide,
+     by unfold AttrsWF exANet exNet; decide, by unfold AttrsWF exANet exNet Net.edgeIds; decide⟩
+    (by unfold exANet exNet; intro x hx
+        simp only [List.mem_cons, List.not_mem_nil, or_false] at hx
+        rcases hx with rfl | rfl | rfl | rfl <;> rfl)
+    (by unfold exANet exNet Net.edgeIds; intro x hx
+        simp only [List.map_cons, List.map_nil, List.mem_cons, List.not_mem_nil, or_false] at hx
+        rcases hx with rfl | rfl | rfl | rfl <;> rfl)
+    (by unfold exANet exNet; decide)
+  exact ⟨d, r, h1, h2, h3, h6⟩
+/-- colliding casts: nodes 1 and "1" -/
+example : (toHypergraphDict exCast { exANet with net := { nodes := [.int 1, .str "1"], edges := [] } }).toBool = false := by
+  decide
+
+/-- class conversion to a simplicial complex: the multi-edge and the empty edge disappear, faces are added -/
+def exTri : ANet :=
+  { cls := .hg, net := { nodes := [.int 1, .int 2, .int 3, .int 4],
+                         edges := [(.str "t", [.int 1, .int 2, .int 3]), (.int 0, [.int 1, .int 2]), (.int 7, [])] },
+    nattr := fun _ => [], eattr := fun e => if e = .str "t" then [("w", .sc (.int 2))] else [], gattr := [("name", .sc (.str "tri"))] }
+
+example : (toSimplicialComplex exTri).net.edges =
+    [(.str "t", [.int 1, .int 2, .int 3]), (.int 0, [.int 1, .int 2]), (.int 1, [.int 2, .int 3]), (.int 2, [.int 1, .int 3])] := by
+  decide
+example : (toSimplicialComplex exTri).gattr = [("name", .sc (.str "tri"))] := by decide
+example : (toSimplicialComplex exTri).net.nodes = [.int 1, .int 2, .int 3, .int 4] := by decide
+
+/-- a directed network: edge 0 = ({1, 2} → {3}), edge 7 = ({1} → {1, 3}), edge 5 empty; node 9 isolated -/
+def exDi : DiNet :=
+  { nodes := [.int 1, .int 2, .int 3, .int 9],
+    edges := [(.int 0, [.int 1, .int 2], [.int 3]), (.int 7, [.int 1], [.int 1, .int 3]), (.int 5, [], [])] }
+
+example : DWF exDi := by unfold DWF exDi; decide
+example : (fromBipartiteEdgelistDi (toBipartiteEdgelistDi exDi)).edges =
+    [(.int 0, [.int 1, .int 2], [.int 3]), (.int 7, [.int 1], [.int 1, .int 3])] := by decide
+example : (dFlat exDi).edges = [(.int 0, [.int 1, .int 2, .int 3]), (.int 7, [.int 1, .int 3]), (.int 5, [])] := by decide
+example : (fromBipartiteGraphDi (toBipartiteGraphDi exDi).G).toOption.map (·.edges) =
+    some [(.int 4, [.int 0, .int 1], [.int 2]), (.int 5, [.int 0], [.int 0, .int 2])] := by decide
+
 end Xgi.C10
